@@ -5,7 +5,7 @@
    digest) - the model treats them opaquely; sequences carry real bytes (partial reads).
    The codec is the table of what the reference decoders (stdlib gzip/flate, brotli, zstd)
    made of the served bytes, supplied by the harness for exactly the calls the model makes. *)
-From ReqV Require Export Lib.Bytes Lib.PackedBytes Model.Decode Model.DecodeSession Model.DecodeAttempts.
+From ReqV Require Export Lib.Bytes Lib.PackedBytes Model.Decode Model.DecodeSession Model.DecodeAttempts Model.DecodeLive.
 
 (* How a sequence case writes a byte string: literally, or - the payloads of sequences are produced
    by a fixed generator that exists on both sides (harness/c14/seq.go genByte) - as a slice of a
@@ -56,6 +56,9 @@ Inductive c14_case :=
 | C14Case
     (* input *)
     (st : stack) (disable auto : bool) (ae range : bytes) (head : bool)
+    (odisable oauto : bool) (nth_ex : nat) (* DisableCompression / AutoDecompression as they were when this
+                                            client's connection was opened, exchanges made on it before
+                                            this one (settings are toggled between exchanges) *)
     (ended : bool)                       (* h2: END_STREAM on the HEADERS frame *)
     (ce clh : list bytes) (cl : Z)       (* Content-Encoding / Content-Length lines, wire ContentLength *)
     (short : bool)                       (* the origin ended the body cleanly short of the declared length *)
@@ -192,7 +195,7 @@ Definition c14_check (c : c14_case) : bool :=
   match c with
   | C14Seq pool resps ops o_ops =>
       c14_seq_check (map (fun l => concat (map seg_bytes l)) pool) resps ops o_ops
-  | C14Case st disable auto ae range head ended ce clh cl short wire table pat
+  | C14Case st disable auto ae range head odisable oauto nth_ex ended ce clh cl short wire table pat
             o_seen_ae o_aes o_ce o_clh o_cl o_unc o_body o_err o_sticky =>
       let cfg0 := {| q_disable := disable; q_ae := ae; q_range := range; q_head := head |} in
       (* the request object as the attempts before the observed one left it *)
@@ -201,7 +204,11 @@ Definition c14_check (c : c14_case) : bool :=
       let sent := map snd (fst prior) ++ [snd (fst (attempt st cfg))] in
       let r0 := {| r_ce := ce; r_clh := clh; r_other := []; r_cl := cl; r_unc := false;
                    r_body := Raw wire; r_short := short |} in
-      let r1 := respond st cfg auto ended r0 in
+      (* the exchange on the live connection, under the settings current now *)
+      let lc := {| lc_opened := {| set_disable := odisable; set_auto := oauto |}; lc_exchanges := nth_ex |} in
+      let cur := {| set_disable := q_disable cfg; set_auto := auto |} in
+      let r1 := fst (live_exchange st lc cur {| rq_ae := q_ae cfg; rq_range := q_range cfg; rq_head := q_head cfg |}
+                                   ended r0) in
       let dec := table_codec wire table in
       let sizes := cycle_sizes (S (S (table_bound wire table))) pat pat in
       let '(b, e, rd1) := drain dec sizes (open_resp r1) in
